@@ -1,11 +1,33 @@
 (* Correspondence evaluator for C09: the link table the harness wrote and the (parent, child) pairs the real node
    listed from the parent side, from the child side and by filtering on the foreign key (all sorted). *)
 From Coq Require Import List ZArith Arith Bool.
-From Verif Require Export Join.
+From Verif Require Export Join JoinAgg.
 Import ListNotations.
 
+(* j_rating / j_pages: the parents' and the children's integer field; j_asc / j_desc: the sequence of parent ratings
+   in which Child(order: {parent: {rating: ASC|DESC}}) listed the children (None when the harness already reported the
+   listing as incomplete); j_aggs: per parent the _count and _sum(pages) of its children as the parent side returned them *)
 Record jcase := mkJ { j_parents : list nat; j_links : links;
-                      j_from_parent : list (nat * nat); j_from_child : list (nat * nat); j_by_fk : list (nat * nat) }.
+                      j_from_parent : list (nat * nat); j_from_child : list (nat * nat); j_by_fk : list (nat * nat);
+                      j_rating : list (nat * Z); j_pages : list (nat * Z);
+                      j_asc : option (list (option Z)); j_desc : option (list (option Z));
+                      j_aggs : list (nat * (Z * Z)) }.
+
+Fixpoint assocZ (k : nat) (l : list (nat * Z)) : option Z :=
+  match l with [] => None | (k', v) :: r => if Nat.eqb k k' then Some v else assocZ k r end.
+Definition oz_eqb (a b : option Z) : bool :=
+  match a, b with None, None => true | Some x, Some y => Z.eqb x y | _, _ => false end.
+Fixpoint loz_eqb (a b : list (option Z)) : bool :=
+  match a, b with [] , [] => true | x :: a', y :: b' => oz_eqb x y && loz_eqb a' b' | _, _ => false end.
+Definition check_order (desc : bool) (c : jcase) (obs : option (list (option Z))) : bool :=
+  match obs with
+  | None => true
+  | Some s => let key := fun p => assocZ p (j_rating c) in loz_eqb s (map (ck key) (order_children desc key (j_links c)))
+  end.
+Definition check_aggs (c : jcase) : bool :=
+  let w := fun ch => match assocZ ch (j_pages c) with Some z => z | None => 0%Z end in
+  forallb (fun a => Z.eqb (fst (snd a)) (wcount (children (j_links c) (fst a))) &&
+                    Z.eqb (snd (snd a)) (wsum w (children (j_links c) (fst a)))) (j_aggs c).
 
 Definition pair_leb (a b : nat * nat) : bool :=
   Nat.ltb (fst a) (fst b) || (Nat.eqb (fst a) (fst b) && Nat.leb (snd a) (snd b)).
@@ -22,7 +44,8 @@ Fixpoint lp_eqb (a b : list (nat * nat)) : bool :=
 Definition check_case (c : jcase) : bool :=
   let m1 := sort_pairs (pairs_from_parent (j_parents c) (j_links c)) in
   let m2 := sort_pairs (pairs_from_child (j_links c)) in
-  lp_eqb m1 (j_from_parent c) && lp_eqb m2 (j_from_child c) && lp_eqb m1 (j_by_fk c).
+  lp_eqb m1 (j_from_parent c) && lp_eqb m2 (j_from_child c) && lp_eqb m1 (j_by_fk c) &&
+  check_order false c (j_asc c) && check_order true c (j_desc c) && check_aggs c.
 
 Fixpoint mism (i : Z) (l : list jcase) : list Z :=
   match l with [] => [] | c :: r => if check_case c then mism (i + 1)%Z r else i :: mism (i + 1)%Z r end.
